@@ -1184,6 +1184,11 @@ class Ex:
         self.bind(fi, new, args, kwargs, fr)
         is_gen = any(isinstance(n, (ast.Yield, ast.YieldFrom)) for n in self.own_nodes(fi.node))
         self.depth += 1
+        prev_unchecked = getattr(self, "unchecked_indexing", None)
+        if any("njit" in d and "boundscheck=True" not in d for d in fi.decorators):
+            # numba compiles subscripts without bounds checks: an out-of-range index is a memory-safety
+            # obligation, not an IndexError
+            self.unchecked_indexing = self.numba_index_obligation
         try:
             if is_gen:
                 new.yielded = []
@@ -1199,6 +1204,7 @@ class Ex:
             return NONE
         finally:
             self.depth -= 1
+            self.unchecked_indexing = prev_unchecked
 
     @staticmethod
     def own_nodes(fn):
@@ -1677,6 +1683,9 @@ class Ex:
     def assume_inv(self, inv):
         for f in (inv.values() if isinstance(inv, dict) else [inv]):
             self.st.assume(f)
+
+    def numba_index_obligation(self, ex, t, n, axis):
+        self.st.oblige(f"numba.index_in_bounds[axis {axis}]", z3.And(t >= -n, t < n), {"kind": "memory-safety"}, assume_after=True)
 
     def heap_fingerprint(self):
         """Identity fingerprint of every heap cell (used to detect undeclared writes in loop bodies)."""
